@@ -43,11 +43,13 @@ def sc_mixed(params, obs, save):
     deadline = time.monotonic() + 60
     for rj in recs:
         h = rj['h']
+        # (per-job floor of 25 s: on a loaded machine the shared budget can be
+        # used up by the first jobs)
         if rj['k'] in ('imap', 'imap_u'):
-            rj['outcome'] = _collect({'kind': rj['k']}, h, max(1.0, deadline - time.monotonic()))
+            rj['outcome'] = _collect({'kind': rj['k']}, h, max(25.0, deadline - time.monotonic()))
             rj['stable'] = None
         else:
-            _wait_for(lambda: h.ready(), max(1.0, deadline - time.monotonic()))
+            _wait_for(lambda: h.ready(), max(25.0, deadline - time.monotonic()))
             rj['outcome'] = _outcome(lambda: h.get(0)) if h.ready() else ['unresolved']
     time.sleep(1.5)
     for rj in recs:
